@@ -84,6 +84,13 @@ func ruleFrame(p *Prog, r *Report) {
 			continue
 		}
 		pos := p.Pos(fn.Pos())
+		// every return must hand out a freshly built message; the fields are
+		// then read from the memory at that return
+		type result struct {
+			obj   string
+			store Store
+		}
+		var results []result
 		run := func(extra func(in *Interp, args []Val)) (*Interp, string, bool) {
 			in := symInterp(p)
 			args := defaultArgs(fn)
@@ -95,32 +102,58 @@ func ruleFrame(p *Prog, r *Report) {
 			}
 			out := in.Run(fn, args, nil)
 			rets := out.Frame.ReturnVals()
-			if len(rets) != 1 || rets[0][0].K != KPtr || !strings.Contains(rets[0][0].S, "#") {
+			stores := out.Frame.ReturnStores()
+			results = nil
+			for i, rv := range rets {
+				if len(rv) != 1 || rv[0].K != KPtr || !strings.Contains(rv[0].S, "#") {
+					return in, "", false
+				}
+				results = append(results, result{rv[0].S, stores[i]})
+			}
+			if len(results) == 0 {
 				return in, "", false
 			}
-			return in, rets[0][0].S, true
+			in.At(results[0].store)
+			return in, results[0].obj, true
 		}
 		in, obj, ok := run(nil)
 		if !ok {
-			r.unk(rule, fmt.Sprintf("%s:ast.(*DataMessage).%s:result", rule, pr.name), pos, "the producer's result is not a single freshly allocated DataMessage")
+			r.unk(rule, fmt.Sprintf("%s:ast.(*DataMessage).%s:result", rule, pr.name), pos, "some return of the producer does not hand out a freshly allocated DataMessage")
 			continue
 		}
+		all := append([]result{}, results...)
 		for i := 0; i < st.NumFields(); i++ {
 			f := st.Field(i).Name()
 			key := fmt.Sprintf("%s:ast.(*DataMessage).%s:%s", rule, pr.name, f)
-			got := heapTermT(in, obj+"."+f, st.Field(i).Type())
 			if !pr.modifies[f] {
 				want := "p0." + f
 				if _, isSlice := st.Field(i).Type().Underlying().(*types.Slice); isSlice {
 					want = "p0." + f + "[0:]"
 				}
-				if got == want {
-					r.ok(rule, key, pos, "field "+f+" of the result is the receiver's "+f)
+				wrong := ""
+				for _, res := range all {
+					in.At(res.store)
+					if got := heapTermT(in, res.obj+"."+f, st.Field(i).Type()); got != want {
+						wrong = got
+					}
+				}
+				if wrong == "" {
+					r.ok(rule, key, pos, fmt.Sprintf("field %s of the result is the receiver's %s (on each of the %d returns)", f, f, len(all)))
 				} else {
-					r.bad(rule, key, pos, fmt.Sprintf("%s must leave %s unchanged, but the result's %s is %s instead of the receiver's", pr.name, f, f, got))
+					r.bad(rule, key, pos, fmt.Sprintf("%s must leave %s unchanged, but on some return the result's %s is %s instead of the receiver's", pr.name, f, f, wrong))
 				}
 				continue
 			}
+			in.At(all[0].store)
+			obj = all[0].obj
+			got := heapTermT(in, obj+"."+f, st.Field(i).Type())
+			for _, res := range all[1:] {
+				in.At(res.store)
+				if g2 := heapTermT(in, res.obj+"."+f, st.Field(i).Type()); g2 != got {
+					got = got + " | " + g2 // differs between returns: no expected value matches
+				}
+			}
+			in.At(all[0].store)
 			// fields the producer is meant to set
 			switch pr.name + "." + f {
 			case "SetWaitBit.waitBit":
